@@ -6,6 +6,7 @@ import HappyProofs.C11.ApplyAgree
 import HappyProofs.C11.SubmitRun
 import HappyProofs.C11.Completeness
 import HappyProofs.C11.Safety
+import HappyProofs.C11.LeaderInit
 /-! C11 — property theorems: statements about the `Spec` predicates on the frames of model runs.
 
 General theorems live next to their invariants (quantified over the repair flags they need):
@@ -19,6 +20,8 @@ General theorems live next to their invariants (quantified over the repair flags
 * `leader_completeness`        (Safety.lean)       needs `Rep v`
 * `state_machine_safety`       (Safety.lean)       needs `Rep v`
 * `commit_monotone`            (Safety.lean)       needs `Rep v`
+* `new_leader_progress_reset`  (LeaderInit.lean)   every variant: a node that becomes leader starts with
+                               `match_index = 0`, `next_index = last_index + 1` (nothing survives from an earlier leadership)
 * `commit_monotone_partial`, `state_machine_safety_partial`, `leader_completeness_partial`: the earlier
   per-step / conditional forms (every variant), now lemmas of the full theorems
 
